@@ -26,7 +26,7 @@ MUTATORS = {
         "keyspace::Keyspace::create_new": "keyspace folder",
     },
     "std::fs::remove_dir_all": {
-        "<db::DatabaseInner as std::ops::Drop>::drop": "temporary database clean-up",
+        "<locked_file::LockedFileGuardInner as std::ops::Drop>::drop": "temporary database clean-up, by the LAST holder of the lock and while the lock is still held",
         "<keyspace::KeyspaceInner as std::ops::Drop>::drop": "deleted keyspace, last handle dropped",
         "recovery::recover_keyspaces": "unreferenced / uninitialised keyspace folders",
     },
